@@ -1,3 +1,4 @@
+import Solstat.Spec.ReviewedSignatures
 import Solstat.Report
 /-!
 # C11 / C12 oracles: reading a report back, as text
@@ -46,11 +47,14 @@ def readBackStep (sigs : List (String × String)) (st : RB) (l : String) : RB :=
 
 def readBack (sigs : List (String × String)) (lines : List String) : RB := lines.foldl (readBackStep sigs) {}
 
-/-- (pattern name, signature line) of every pattern of the three categories -/
-def allSignatures : List (String × String) :=
+/-- (pattern name, signature line) of every pattern of the three categories, as regenerated from the code -/
+def generatedSignatures : List (String × String) :=
   (Gen.optAll.filterMap fun p => (signatureLine (optCategory.sectionLines p)).map (p.name, ·)) ++
   (Gen.vulnAll.filterMap fun p => (signatureLine (vulnCategory.sectionLines p)).map (p.name, ·)) ++
   (Gen.qaAll.filterMap fun p => (signatureLine (qaCategory.sectionLines p)).map (p.name, ·))
+
+/-- the table the oracle reads reports with: the reviewed one, not the regenerated one -/
+def allSignatures : List (String × String) := reviewedSignatures
 
 /-- the number printed in an overview line `...(Total X N)` -/
 def overviewTotal (pre post : String) (lines : List String) : Option Nat :=
